@@ -705,8 +705,13 @@ func RunLife(r *Run, variant string) {
 	st.eng = eng
 
 	// Scheduling and fault policy.
-	fine := r.SetupPolicy(variant != "timed", 400)
+	fine := r.SetupPolicy(variant != "timed" && variant != "enum", 400)
 	switch variant {
+	case "enum":
+		// C06 fault enumeration: the only fault of the run is the enumerated one (or none, in the
+		// reference execution); every store call of the whole history is a position.
+		r.Faults.Off = true
+		r.EnumActive = true
 	case "timed":
 		r.Faults.Off = true
 		r.FairNoClock = true
